@@ -270,7 +270,7 @@ var c11Embeddings = []c11Embedding{
 func TestVerifC11(t *testing.T) {
 	r := vNewReport("C11")
 	defer r.Write(t)
-	r.Extra["rule"] = "20 documented untrusted paths: full spelling product of every segment in the bare embedding; proper prefixes, trusted siblings per segment, one-segment extensions, object filter in place of each named segment; array filter followed by an index at every later place of the chain; every path continued on the result of a parenthesised || / && (4 templates x every split point); canonical + adversarial spelling of every path in 23 embeddings (operators, parentheses, call arguments, index positions, 2 and 3 chains, sanitising calls nested both ways), pairs of different paths in the multi-chain embeddings; every path (3 spellings) next to 10 partner chains that leave the matcher in different states, both orders, 3 templates; script positions (run:, github-script script:; also scripts whose own text holds {{ }} before the placeholder) and non-script positions (env:, other with: input, if:, name:) through Linter.Lint. oracle = stateless reference matcher on segment lists. class = (family, number of reports expected); non-trivial = something must be reported"
+	r.Extra["rule"] = "20 documented untrusted paths: full spelling product of every segment in the bare embedding; proper prefixes, trusted siblings per segment, one-segment extensions, object filter in place of each named segment; array filter followed by an index at every later place of the chain; every path continued on the result of a parenthesised || / && (4 templates x every split point); canonical + adversarial spelling (thorough: every spelling) of every path in 23 embeddings (operators, parentheses, call arguments, index positions, 2 and 3 chains, sanitising calls nested both ways), pairs of different paths in the multi-chain embeddings; every path (3 spellings) next to 10 partner chains that leave the matcher in different states, both orders, 3 templates; script positions (run:, github-script script:; also scripts whose own text holds {{ }} before the placeholder) and non-script positions (env:, other with: input, if:, name:) through Linter.Lint. oracle = stateless reference matcher on segment lists. class = (family, number of reports expected); non-trivial = something must be reported"
 	r.Extra["assumptions"] = []string{"a chain is a variable followed by accessors; chains interrupted by operators are not claimed (DESIGN section 7)", "a non-string index anywhere after an object filter (it selects an element of the filtered array) is not generated"}
 	if raw := vReplayInput(); raw != nil {
 		var rp struct {
@@ -383,6 +383,23 @@ func TestVerifC11(t *testing.T) {
 					c11CheckExpr(r, em.tmpl(texts), want, "embed:"+em.name)
 				}
 			}
+		}
+	}
+	// (3t) thorough: the full spelling product of every path in every single-chain embedding
+	if vThorough() {
+		for _, leaf := range c11Leaves {
+			c11Spellings(leaf, func(c *c11Chain) {
+				for _, em := range c11Embeddings {
+					if em.n != 1 || !mine() {
+						continue
+					}
+					var want [][]string
+					if em.live[0] {
+						want = append(want, c11Match(c))
+					}
+					c11CheckExpr(r, em.tmpl([]string{c.text()}), want, "embed-all-spellings:"+em.name)
+				}
+			})
 		}
 	}
 	// (2b) array filter followed by an index somewhere later in the same chain: commits.*.message[0]
